@@ -7,6 +7,7 @@ from typing import Any, Dict, List
 
 from lib.pylive import Live, REPO
 from lib.report import Run
+from lib import sweeps as sweeps_mod
 from lib.sweeps import decl_type, inject_extras, root_inputs
 from lib.unions import UnionAnalysis
 from oracle.metamodel import MetaModel
@@ -38,6 +39,7 @@ def main(argv: List[str]) -> int:
     # ---- bounded native sweep: extras at every object node of a valid value of every class
     conv = live.converter
     sweep = 0
+    extras_failures = 0
     for d in decls:
         cls = getattr(live.types, d.pyname, None)
         if cls is None:
@@ -49,17 +51,32 @@ def main(argv: List[str]) -> int:
                 base_out = conv.unstructure(base_obj)
             except Exception:
                 continue
-            jx = inject_extras(mm, t, j)
-            sweep += 1
-            try:
-                obj = conv.structure(jx, cls)
-                out = conv.unstructure(obj)
-            except Exception as e:  # noqa
-                run.violation(f"extras:{d.pyname}:raises", f"adding undeclared properties to a valid {d.pyname} makes structuring fail: {type(e).__name__}: {str(e)[:160]}", {"input_without_extras": j, "input_with_extras": jx}, True)
+            stop = False
+            for style in ("plain", "twins"):
+                sweeps_mod.EXTRAS_STYLE = style
+                try:
+                    jx = inject_extras(mm, t, j)
+                finally:
+                    sweeps_mod.EXTRAS_STYLE = "plain"
+                sweep += 1
+                tag = "" if style == "plain" else ":look-alike-keys"
+                try:
+                    obj = conv.structure(jx, cls)
+                    out = conv.unstructure(obj)
+                except Exception as e:  # noqa
+                    run.violation(f"extras:{d.pyname}:raises{tag}", f"adding undeclared properties to a valid {d.pyname} makes structuring fail: {type(e).__name__}: {str(e)[:160]}", {"input_without_extras": j, "input_with_extras": jx, "style": style}, True)
+                    stop = True
+                    break
+                if obj != base_obj or not json_equal(out, base_out):
+                    run.violation(f"extras:{d.pyname}:changes{tag}", f"adding undeclared properties to a valid {d.pyname} changes the result: {json_diff(base_out, out)}", {"input_without_extras": j, "input_with_extras": jx, "without": base_out, "with": out, "style": style}, True)
+                    stop = True
+                    break
+            if stop:
+                extras_failures += 1
                 break
-            if obj != base_obj or not json_equal(out, base_out):
-                run.violation(f"extras:{d.pyname}:changes", f"adding undeclared properties to a valid {d.pyname} changes the result: {json_diff(base_out, out)}", {"input_without_extras": j, "input_with_extras": jx, "without": base_out, "with": out}, True)
-                break
+        if extras_failures >= 20:
+            run.notes.append("extras sweep stopped after 20 classes with a violation (the remaining classes were not swept)")
+            break
     run.assume(*U.ASSUMPTIONS, "cattrs ignores keys a class does not declare unless forbid_extra_keys is set (assumed row; its precondition is the call-site scan; exercised by the sweep)")
     return run.finish(
         {
